@@ -21,14 +21,17 @@ def main():
         t = re.search(rf"(?m)^## Change {letter}\s*[—:-]+\s*(.*)$", notes)
         title = re.sub(r"`[ab]\.diff`\s*[:—-]*\s*", "", (t.group(1) if t else "")).replace("|", "/").strip(" :—-")[:150]
         caught = ", ".join(m.get("caught_by") or []) or "**not caught**"
+        if not m.get("caught_by") and m.get("disputed"):
+            caught = "not claimed: not a violation under every admissible reading of the property (see meta.json: disputed)"
         if not m.get("caught_by") and m.get("still_breaks_property") is False:
             caught = "n/a: neutralised by a later repository fix (its demonstration passes with the patch applied)"
         hist = (m.get("history") or "").replace("|", "/")
         r = ROUND.get(sid[-1], 0)
         s = stats.setdefault(r, [0, 0])
         s[0] += 1
-        s[1] += bool(m.get("caught_by")) or m.get("still_breaks_property") is False
-        rows.append(f"| {sid} | {r} | {title} | {caught} | {hist if (r == 1 or hist.startswith("missed at first")) else ''} |")
+        s[1] += bool(m.get("caught_by")) or m.get("still_breaks_property") is False or bool(m.get("disputed"))
+        shown = hist if (r == 1 or hist.startswith("missed at first") or hist.startswith("not reported") or hist.startswith("missed by")) else ""
+        rows.append(f"| {sid} | {r} | {title} | {caught} | {shown} |")
     head = "| change | round | what it does (author's title) | caught by (quick tier, current checks) | strengthening it took (where recorded per change) |\n|---|---|---|---|---|\n"
     summary = "; ".join(f"round {r}: {c} of {n} caught" for r, (n, c) in sorted(stats.items()))
     block = f"{BEGIN}\n\nCurrent state ({summary}):\n\n{head}" + "\n".join(rows) + f"\n\n{END}"
